@@ -227,6 +227,15 @@ theorem u256_add_exact (vm : Vm) (y0 y1 y2 y3 y4 y5 y6 y7 x0 x1 x2 x3 x4 x5 x6 x
   rw [stackRun_pure _ (by decide), hs]
   exact U256.u256_add_pure y0 y1 y2 y3 y4 y5 y6 y7 x0 x1 x2 x3 x4 x5 x6 x7 r0 r1 r2 r hr hx0 hy0 hx1 hy1 hx2 hy2 hx3 hy3 hx4 hy4 hx5 hy5 hx6 hy6 hx7 hy7
 
+/-- `u256::sub_unsafe`: `[b, a] → [c]` with `c = (a − b) mod 2^256`, for all limbs < 2^32 (every
+    borrow pattern, a subtrahend limb 2^32−1 with an incoming borrow included). -/
+theorem u256_sub_exact (vm : Vm) (y0 y1 y2 y3 y4 y5 y6 y7 x0 x1 x2 x3 x4 x5 x6 x7 r0 r1 r2 : Nat) (r : List Nat)
+    (hs : vm.stack = y0 :: y1 :: y2 :: y3 :: y4 :: y5 :: y6 :: y7 :: x0 :: x1 :: x2 :: x3 :: x4 :: x5 :: x6 :: x7 :: r0 :: r1 :: r2 :: r)
+    (hr : 13 ≤ r.length) (hx0 : x0 < 4294967296) (hy0 : y0 < 4294967296) (hx1 : x1 < 4294967296) (hy1 : y1 < 4294967296) (hx2 : x2 < 4294967296) (hy2 : y2 < 4294967296) (hx3 : x3 < 4294967296) (hy3 : y3 < 4294967296) (hx4 : x4 < 4294967296) (hy4 : y4 < 4294967296) (hx5 : x5 < 4294967296) (hy5 : y5 < 4294967296) (hx6 : x6 < 4294967296) (hy6 : y6 < 4294967296) (hx7 : x7 < 4294967296) (hy7 : y7 < 4294967296) :
+    stackRun Generated.u256_sub_unsafe vm = .ok (((U256.u256of x0 x1 x2 x3 x4 x5 x6 x7 + 115792089237316195423570985008687907853269984665640564039457584007913129639936 - U256.u256of y0 y1 y2 y3 y4 y5 y6 y7) % 115792089237316195423570985008687907853269984665640564039457584007913129639936) / 26959946667150639794667015087019630673637144422540572481103610249216 % 4294967296 :: ((U256.u256of x0 x1 x2 x3 x4 x5 x6 x7 + 115792089237316195423570985008687907853269984665640564039457584007913129639936 - U256.u256of y0 y1 y2 y3 y4 y5 y6 y7) % 115792089237316195423570985008687907853269984665640564039457584007913129639936) / 6277101735386680763835789423207666416102355444464034512896 % 4294967296 :: ((U256.u256of x0 x1 x2 x3 x4 x5 x6 x7 + 115792089237316195423570985008687907853269984665640564039457584007913129639936 - U256.u256of y0 y1 y2 y3 y4 y5 y6 y7) % 115792089237316195423570985008687907853269984665640564039457584007913129639936) / 1461501637330902918203684832716283019655932542976 % 4294967296 :: ((U256.u256of x0 x1 x2 x3 x4 x5 x6 x7 + 115792089237316195423570985008687907853269984665640564039457584007913129639936 - U256.u256of y0 y1 y2 y3 y4 y5 y6 y7) % 115792089237316195423570985008687907853269984665640564039457584007913129639936) / 340282366920938463463374607431768211456 % 4294967296 :: ((U256.u256of x0 x1 x2 x3 x4 x5 x6 x7 + 115792089237316195423570985008687907853269984665640564039457584007913129639936 - U256.u256of y0 y1 y2 y3 y4 y5 y6 y7) % 115792089237316195423570985008687907853269984665640564039457584007913129639936) / 79228162514264337593543950336 % 4294967296 :: ((U256.u256of x0 x1 x2 x3 x4 x5 x6 x7 + 115792089237316195423570985008687907853269984665640564039457584007913129639936 - U256.u256of y0 y1 y2 y3 y4 y5 y6 y7) % 115792089237316195423570985008687907853269984665640564039457584007913129639936) / 18446744073709551616 % 4294967296 :: ((U256.u256of x0 x1 x2 x3 x4 x5 x6 x7 + 115792089237316195423570985008687907853269984665640564039457584007913129639936 - U256.u256of y0 y1 y2 y3 y4 y5 y6 y7) % 115792089237316195423570985008687907853269984665640564039457584007913129639936) / 4294967296 % 4294967296 :: ((U256.u256of x0 x1 x2 x3 x4 x5 x6 x7 + 115792089237316195423570985008687907853269984665640564039457584007913129639936 - U256.u256of y0 y1 y2 y3 y4 y5 y6 y7) % 115792089237316195423570985008687907853269984665640564039457584007913129639936) / 1 % 4294967296 :: r0 :: r1 :: r2 :: r) := by
+  rw [stackRun_pure _ (by decide), hs]
+  exact U256.u256_sub_pure y0 y1 y2 y3 y4 y5 y6 y7 x0 x1 x2 x3 x4 x5 x6 x7 r0 r1 r2 r hr hx0 hy0 hx1 hy1 hx2 hy2 hx3 hy3 hx4 hy4 hx5 hy5 hx6 hy6 hx7 hy7
+
 -- Non-vacuity: the hypotheses are met by a concrete state and the procedure really runs.
 example : (stackRun Generated.u64_overflowing_add
     { stack := [4294967295, 4294967295, 0, 1] ++ List.replicate 16 9 }).toOption
